@@ -111,6 +111,7 @@ def run(ctx, rep):
     # `scrub marks exactly the affected stripes as bad so that status lists them`: the mark must also reach the content file
     from .C15 import dirty_bit_rule
     dirty_bit_rule(P, rep, 'R-C04-4w', 'state_scrub_process', {'info_set'})
+    reader_fills_buffer_rule(P, rep, 'R-C04-11')
     from .C01 import used_parity_rule
     used_parity_rule(P, rep, 'R-C04-3p')
     from .carried import carried_flags_rule
@@ -734,6 +735,35 @@ def rehash_covers_pending_hashes_rule(P, rep, rid):
               ('blocks visited on the info == 0 side (%s)' % [c.callee for c in vis]) if not skipped else ('refused beforehand' if refused else
               'the marking loop skips a position whose info word is 0 without looking at its blocks, and nothing refuses an array with pending blocks: a REP block there (copy detected / pre-hashed, not synced yet) keeps a hash of the old function that is then compared with the new one: intact files are reported as data errors'),
               function='state_rehash', construct='info == 0 skipped')
+
+
+def reader_fills_buffer_rule(P, rep, rid, readers=('scrub_data_reader', 'sync_data_reader')):
+    """the engines compute the parity over the buffers of ALL disk positions: a reader callback that declares its task DONE must have
+    put something defined into the buffer -- the block just read, or zeros for a position without disk / without file.  A DONE
+    without either leaves whatever the ring slot held before: scrub then reports parity errors on an undamaged array that has an
+    unused disk position and marks the stripes bad."""
+    rep.rule(rid, 'data reader callbacks: every path that sets the task state to DONE first fills the block buffer (handle_read or a zero fill)', 2)
+    n = 0
+    for fn in readers:
+        f = P.fn(fn)
+        rep.analysed(f)
+        # the constant of TASK_STATE_DONE: the value stored on the path that follows a successful handle_read
+        hr = list(f.calls('handle_read'))
+        sts = [i for i in f.all_insts() if i.op == 'store' and f.expr(i.ops[1]).endswith('task->state') and f.const_of(i.ops[0]) is not None]
+        if not hr or not sts:
+            raise AnalysisBroken('%s: handle_read / task->state stores not found' % fn)
+        last = max(sts, key=lambda i: (i.block, i.idx))
+        done = f.const_of(last.ops[0])
+        fills = list(hr) + [c for c in f.calls() if (c.callee or '').startswith('llvm.memset')]
+        for st in sts:
+            if f.const_of(st.ops[0]) != done:
+                continue
+            n += 1
+            ok = f.must_pass(st, fills)
+            rep.check(ok, rid, '%s: DONE at line %s' % (fn, st.line), st.loc(), 'buffer filled on every path' if ok else 'the task is declared DONE on a path that neither reads the block nor zero-fills the buffer (a position without disk or without file): the parity is then computed over stale bytes of the ring slot -- false parity errors and bad marks on an undamaged array',
+                      function=fn, construct='DONE without filling the buffer')
+    if n < 2:
+        raise AnalysisBroken('data readers: DONE states not recognised (%d)' % n)
 
 
 def scrub_marking_rule(P, rep, rid, L=None):
